@@ -548,7 +548,8 @@ func (r *Run) IsolationOracle() []string {
 			case "CopyRows":
 				for _, rw := range e.Op.Rows {
 					if rw.Src != p.src || rw.IG != p.ig {
-						bad = append(bad, fmt.Sprintf("event %d: task %d copied a row stamped (src %d, ig %d), its own pair is (%d, %d)", i, e.Tid, rw.Src, rw.IG, p.src, p.ig))
+						bad = append(bad, fmt.Sprintf("event %d: task %d copied a row stamped (src %d, ig %d), its own pair is (%d, %d): the row says src_name = %s, ig_name = %s, the task is %s / %s", i, e.Tid, rw.Src, rw.IG, p.src, p.ig,
+							w.Names.rev(w.Names.Src, rw.Src), w.Names.rev(w.Names.IG, rw.IG), t.Info.SrcName, t.Info.IGName))
 					}
 					if rw.Tbl != w.Names.TblID(t.Info.Table) {
 						bad = append(bad, fmt.Sprintf("event %d: task %d copied into table %d, its table is %d", i, e.Tid, rw.Tbl, w.Names.TblID(t.Info.Table)))
@@ -804,6 +805,18 @@ func (r *Run) RangeOracle() []string {
 				if _, has := newestCur(s.atStart, w.pair(t)); !has {
 					h := e.Op.RNum
 					s.head0 = &h
+				}
+			}
+			if e.Op.Name == "RGet" {
+				// the stop (and the batch size) reach the source only as the limit of Get
+				for k, sg := range e.Op.Segs {
+					if sg.Fail != "" || k >= len(e.Op.Parts) || len(sg.Blocks) == 0 {
+						continue
+					}
+					pt := e.Op.Parts[k]
+					if uint64(len(sg.Blocks)) != pt[1] || sg.Blocks[0].Num != pt[0] {
+						bad = append(bad, fmt.Sprintf("event %d task %d: Source.Get(start %d, limit %d) was answered with %d blocks %d..%d", i, t.ID, pt[0], pt[1], len(sg.Blocks), sg.Blocks[0].Num, sg.Blocks[len(sg.Blocks)-1].Num))
+					}
 				}
 			}
 			if e.Op.Name == "RGet" && !s.loaded && len(e.Op.Parts) > 0 {
